@@ -63,28 +63,46 @@ theorem idxOf_inj {l : List Nat} {a b : Nat} (ha : a ∈ l) (h : l.idxOf a = l.i
 
 /-! ### the driver's tabulation is the identity -/
 
-theorem freeze_eq {K : Type} (m : Nat) (X : Mat K) : freeze m X = X := by
+theorem ofTable_eq {K : Type} (arr : Array (Array K)) (X : Mat K)
+    (h : ∀ i j (hi : i < arr.size) (hj : j < arr[i].size), arr[i][j] = X i j) : ofTable arr X = X := by
   funext i j
-  simp only [freeze]
+  unfold ofTable
   split
-  · simp
+  · split
+    · exact h i j _ _
+    · rfl
   · rfl
 
-theorem freezeV_eq {K : Type} (m : Nat) (r : Nat → K) : freezeV m r = r := by
+theorem ofTable_tabulate {K : Type} (m : Nat) (X : Mat K) : ofTable (tabulate m X) X = X := by
+  refine ofTable_eq _ _ ?_
+  intro i j hi hj
+  simp [tabulate]
+
+theorem ofTableV_eq {K : Type} (arr : Array K) (r : Nat → K)
+    (h : ∀ i (hi : i < arr.size), arr[i] = r i) : ofTableV arr r = r := by
   funext i
-  simp only [freezeV]
+  unfold ofTableV
   split
-  · simp
+  · exact h i _
   · rfl
+
+theorem ofTableV_tabulateV {K : Type} (m : Nat) (r : Nat → K) : ofTableV (tabulateV m r) r = r := by
+  refine ofTableV_eq _ _ ?_
+  intro i hi
+  simp [tabulateV]
 
 theorem compileGUFast_eq {K : Type} [Zero K] [One K] [Add K] [Mul K] [Neg K] [DecidableEq K]
     (registers : List Nat) (cmds : List (GCmd K)) : compileGUFast registers cmds = compileGU registers cmds := by
-  simp only [compileGUFast, compileGU, freeze_eq, freezeV_eq]
+  have : (freezeNet : Nat → Net K → Net K) = fun _ a => a := by
+    funext n a
+    simp only [freezeNet, ofTable_tabulate, ofTableV_tabulateV]
+  simp only [compileGUFast, compileGU, this]
 
 theorem compilePFast_eq {K : Type} [Zero K] [One K] [Add K] [Mul K]
     (registers : List Nat) (cmds : List (PCmd K)) : compilePFast registers cmds = compileP registers cmds := by
-  have : (freeze : Nat → Mat K → Mat K) = fun _ T => T := by
-    funext m X; exact freeze_eq m X
+  have : (freezeP : Nat → PNet K → PNet K) = fun _ a => a := by
+    funext n a
+    simp only [freezeP, ofTable_tabulate]
   simp only [compilePFast, compileP, this]
 
 /-! ### dot products -/
@@ -416,6 +434,14 @@ theorem compileP_net (registers : List Nat) (cmds : List (PCmd K))
     exact hreg c hc m hmc
   simp only [compileP, compilePWith, hregs, netSpecP]
   refine ⟨trivial, trivial, ?_⟩
+  have hfold : ∀ (l : List (PCmd K)) (a : PNet K),
+      (l.foldl (fun a c => (⟨stepP (dictIdx (usedModesP cmds)) (usedModesP cmds).length a.T c⟩ : PNet K)) a).T
+        = l.foldl (stepP (dictIdx (usedModesP cmds)) (usedModesP cmds).length) a.T := by
+    intro l
+    induction l with
+    | nil => intro a; rfl
+    | cons c cs ih => intro a; simp only [List.foldl_cons]; rw [ih]
+  rw [hfold]
   refine foldlP_refines (dictIdx (usedModesP cmds)) _ cmds ?_ _ _ (fun _ _ _ => rfl)
   intro c hc
   refine ⟨?_, ?_, hwf c hc⟩
